@@ -212,6 +212,54 @@ def main(tier, seed):
                         break
             finally:
                 _tempfile.tempdir = old_tmp
+    # "once it has returned or RAISED" includes what is not an Exception: a callable or a query test interrupted by KeyboardInterrupt,
+    # ending the program with SystemExit, or closed as a generator (GeneratorExit) - nothing may stay behind and the file is as it was
+    interrupted_runs = 0
+    for exc in (KeyboardInterrupt, SystemExit, GeneratorExit):
+        for where in ("update callable", "update_all callable on a later point", "remove query test"):
+            d = ck.work / f"intr_{exc.__name__}_{where.split()[0]}_{interrupted_runs}"
+            d.mkdir()
+            tdir = d / "tmp"
+            tdir.mkdir()
+            path = str(d / "db.csv")
+            old_tmp = _tempfile.tempdir
+            _tempfile.tempdir = str(tdir)
+            try:
+                db = tf.TinyFlux(path)
+                db.insert_multiple([tf.Point(time=_dt(2020, 1, 1, tzinfo=_tz.utc) + _td(seconds=i), measurement="m1", tags={"k": str(i)}, fields={"a": float(i)})
+                                    for i in range(4)])
+                before = open(path, "rb").read()
+                n_calls = [0]
+
+                def boom(x, _n=n_calls, _exc=exc, _late=("later" in where)):
+                    _n[0] += 1
+                    if not _late or _n[0] >= 3:
+                        raise _exc()
+                    return {"z": "1"} if isinstance(x, dict) else x
+                try:
+                    if where == "update callable":
+                        db.update(tf.TagQuery().k == "1", tags=boom)
+                    elif where.startswith("update_all"):
+                        db.update_all(tags=boom)
+                    else:
+                        db.remove(tf.FieldQuery().a.test(lambda v: boom(v) and False))
+                    outcome = "returned"
+                except BaseException as e:  # noqa
+                    outcome = type(e).__name__
+                interrupted_runs += 1
+                after = open(path, "rb").read()
+                left = sorted(_os.listdir(tdir)), sorted(x for x in _os.listdir(d) if x not in ("db.csv", "tmp"))
+                if (after != before or left != ([], [])) and len(direct_bad) < 4:
+                    direct_bad.append({"kind": "failing-input", "operation_kind": f"{where} raising {exc.__name__}", "access_mode": "r+", "auto_index": True,
+                                       "why": f"files left behind after the operation was interrupted: {left}" if left != ([], []) else
+                                              "an interrupted operation changed the bytes of the database file",
+                                       "outcome": outcome, "bytes_before": len(before), "bytes_after": len(after)})
+                try:
+                    db.close()
+                except Exception:  # noqa
+                    pass
+            finally:
+                _tempfile.tempdir = old_tmp
     # tie: the model's plan for the operation is a pure plan exactly for the pure kinds, the completed script leaves a clean
     # world, and its disk is what the file decodes to
     f = ck.work / "cases_c15.v"
@@ -249,7 +297,7 @@ def main(tier, seed):
             "run-time proxies harness/ioproxy.py; byte comparison of the database file and listings of a private temp directory and the database directory",
             "Print Assumptions: " + json.dumps(b["assumptions"])],
         "theorems": b["theorems"], "forbidden_tokens_found": b["forbidden"],
-        "evaluations": n + fault_runs + closed_runs, "fault_injections": fault_runs, "reads_on_a_closed_database": closed_runs, "distinct_nontrivial": len(seen),
+        "evaluations": n + fault_runs + closed_runs + interrupted_runs, "fault_injections": fault_runs, "reads_on_a_closed_database": closed_runs, "operations_interrupted_by_a_non_Exception": interrupted_runs, "distinct_nontrivial": len(seen),
         "rule": "sampled (history, operation) pairs on a CSV database reopened in access modes r+ / r / a / w+; operation kinds: reads, getters, "
                 "reindex, len/iteration, handle reads, removals and updates that match or change nothing, and (for the leftover rule and read-only modes) real "
                 "writes including ones that raise; reads / getters / reindex / a no-match removal on a database object after close() in every access mode; checked directly: bytes of the file before/after, listing of a private temp directory (every second case "
